@@ -214,6 +214,24 @@ def harvest : (r : Req) → Inter M r → Inter M r
   -- `compMergeFruits`) and proved invisible in the returned page (C14_composite_merge_fruits_eq_evalAggPV)
   | .composite _ _ _ sub, x => KMap.mapVals (harvest sub) x
 
+/-- what the composite collectors of one segment do to the whole intermediate tree: EVERY composite
+node (at any depth, in every parent bucket) keeps only its page — the first `size` buckets after
+`after` (mirrors: bucket/composite/collector.rs::collect_bucket_with_limit, one top-`size` map per
+parent bucket).  The terms cut is `harvest`; the two are independent. -/
+def evict : (r : Req) → Inter M r → Inter M r
+  | .none, _ => ()
+  | .both a b, x => (evict a x.1, evict b x.2)
+  | .metric _ _, x => x
+  | .terms _ sub, x => ⟨x.map.mapVals (evict sub), x.other, x.err⟩
+  | .hist _ sub, x => KMap.mapVals (evict sub) x
+  | .range _ _ sub, x => KMap.mapVals (evict sub) x
+  | .filter _ _ sub, x => (x.1, evict sub x.2)
+  | .topHits _ _ _ _, x => x
+  | .composite _ size after sub, x => compTrim size after (KMap.mapVals (evict sub) x)
+
+/-- the fruit of one segment with composite eviction everywhere -/
+def collectSegEvict (r : Req) (docs : List Doc) : Inter M r := evict r (collect r docs)
+
 /-- no terms node anywhere in the request: nothing is cut at segment level -/
 def Req.cutFree : Req → Bool
   | .none => true
